@@ -34,6 +34,12 @@ def gen_case(rng, i, tier):
             ops += ["read 0 %d" % rng.choice([1, 64, 4096]) for _ in range(rng.choice([0, 0, 1, 2]))]
         elif r < 0.7:
             ops += ["read 0 4096"] * rng.choice([1, 5, 30])
+        elif r < 0.85 and total <= 20000:
+            # play on to the end of the stream without any seek: the decoder instance that has lapped before is the one asked for its
+            # overlap half by the next lapped seek (which the oracle takes from a handle that was simply played to the end)
+            if rng.random() < 0.5 and lens[-1] > 0:
+                ops.append("pcmseeklap 0 %d" % (bounds[-2] + rng.randrange(0, lens[-1])))
+            ops += ["read 0 4096"] * (total // 100 + 10)
         ops.append("tell 0")
         if "open 2 1 4096" in ops and rng.random() < 0.3:
             ops.append("pcmseek 2 %d" % max(0, min(total, pos())))
